@@ -116,6 +116,8 @@ pub fn run_case(c: &Case, ip: &str) -> Outcome {
     };
     let target: SocketAddr = listener.local_addr().unwrap();
     let release = Arc::new(AtomicBool::new(false));
+    let t_case = Instant::now();
+    let last_progress_ms = Arc::new(std::sync::atomic::AtomicU64::new(0));
     let received: Arc<std::sync::Mutex<Option<Result<RefRequest, String>>>> = Arc::new(std::sync::Mutex::new(None));
     let sending_time = Arc::new(std::sync::Mutex::new(Duration::ZERO));
     let up = c.upstream.clone();
@@ -126,6 +128,7 @@ pub fn run_case(c: &Case, ip: &str) -> Outcome {
         let release = release.clone();
         let received = received.clone();
         let sending_time = sending_time.clone();
+        let last_progress_ms = last_progress_ms.clone();
         Some(std::thread::spawn(move || {
             let _ = listener.set_nonblocking(true);
             let start = Instant::now();
@@ -145,8 +148,18 @@ pub fn run_case(c: &Case, ip: &str) -> Outcome {
                 return;
             }
             if matches!(up, Upstream::NeverReads) {
+                // never read; but watch how much the kernel has queued for us: as long as that grows, the proxy's writes make
+                // progress and it cannot know yet that it is talking to a stalled peer
+                use std::os::unix::io::AsRawFd;
+                let fd = sock.as_raw_fd();
                 let t = Instant::now();
+                let mut last = -1i32;
                 while !release.load(Ordering::SeqCst) && t.elapsed() < Duration::from_secs(60) {
+                    let mut n: libc::c_int = 0;
+                    if unsafe { libc::ioctl(fd, libc::FIONREAD, &mut n) } == 0 && n != last {
+                        last = n;
+                        last_progress_ms.store(t_case.elapsed().as_millis() as u64, Ordering::SeqCst);
+                    }
                     std::thread::sleep(Duration::from_millis(5));
                 }
                 return;
@@ -238,7 +251,24 @@ pub fn run_case(c: &Case, ip: &str) -> Outcome {
         _ => Duration::ZERO,
     };
     let deadline = effective_timeout + trickle_allowance + Duration::from_secs(2);
-    let result = rx.recv_timeout(deadline);
+    let result = if matches!(c.upstream, Upstream::NeverReads) {
+        // the clock starts when the upstream's receive queue stops growing (until then the kernel keeps taking the proxy's
+        // bytes); one more timeout is allowed for what the sending side still buffers after that
+        loop {
+            match rx.recv_timeout(Duration::from_millis(50)) {
+                Ok(r) => break Ok(r),
+                Err(std::sync::mpsc::RecvTimeoutError::Disconnected) => break Err(()),
+                Err(std::sync::mpsc::RecvTimeoutError::Timeout) => {
+                    let since = t_case.elapsed().as_millis() as u64 - last_progress_ms.load(Ordering::SeqCst).min(t_case.elapsed().as_millis() as u64);
+                    if since > (2 * effective_timeout + Duration::from_secs(2)).as_millis() as u64 {
+                        break Err(());
+                    }
+                }
+            }
+        }
+    } else {
+        rx.recv_timeout(deadline).map_err(|_| ())
+    };
     let elapsed = t0.elapsed();
     let hung = result.is_err();
     release.store(true, Ordering::SeqCst);
@@ -260,7 +290,7 @@ pub fn run_case(c: &Case, ip: &str) -> Outcome {
     if hung {
         fails.push(fail!(
             format!("hang:{}", what),
-            "proxying did not return within {:?} (timeout {:?}) against an upstream that {}; it returned only after the upstream was torn down",
+            "proxying did not return within {:?} (timeout {:?}; for a never-reading upstream the clock starts when its receive queue stops growing) against an upstream that {}; it returned only after the upstream was torn down, if at all",
             deadline,
             effective_timeout,
             match &c.upstream {
